@@ -37,4 +37,9 @@ for rid in ids:
             print(key, "patch does not apply")
         finally:
             shutil.rmtree(scratch, ignore_errors=True)
-        json.dump(results, open(rp, "w"), indent=1)
+        import fcntl
+        with open(rp + ".lock", "w") as lk:
+            fcntl.flock(lk, fcntl.LOCK_EX)
+            cur = json.load(open(rp)) if os.path.exists(rp) else {}
+            cur[key] = results[key]
+            json.dump(cur, open(rp, "w"), indent=1)
